@@ -73,6 +73,7 @@ class Op:
     """
     name = "?"
     prop = "?"
+    model = True      # False: implementation + oracle only (e.g. float-domain streams)
 
     def gen(self, rng, tier, boost):
         return []
@@ -144,7 +145,8 @@ def run_ops(ops, seed, tier, boost=1, result=None, max_cases=None, deadline=None
                 break
             count += 1
             out = run_one(op, a, res)
-            batch.append((op, a, out))
+            if op.model:
+                batch.append((op, a, out))
     compare(batch, res)
     set_mode("greg")
     return res
